@@ -672,12 +672,12 @@ def run(tier, pid="C08"):
             stats[k] = stats.get(k, 0) + v
         chk.case(key=(r["idx"], r["itps"]), nontrivial=r["itps"] > 0,
                  sample={"logic": r["logic"], "queries": r["queries"], "interpolants": r["itps"]} if r["itps"] else None)
+        if pid == "C09":                  # rejection of a legal request is C08's statement, not the path property's
+            r["problems"] = [pr for pr in r["problems"] if pr.get("kind") != "rejected"]
         chk.obligation(not r["problems"])
         if r["itps"]:
             chk.cov["traces_validated_against_impl"] += 1
         for pr in r["problems"][:1]:
-            if pid == "C09" and pr.get("kind") == "rejected":
-                continue                  # rejection of a legal request is C08's statement
             key = pr.get("match")
             if pid == "C09" and pr.get("kind") == "path" and ":interpolation-lra-algorithm 3" in r["script"]:
                 key = "lra-factor-path"
